@@ -57,11 +57,13 @@ def withStub (cache : Option Cache) : Near → Option (List String) → Bool →
   | near, cols, force =>
     if near.isTable then (near, [], cache)
     else
-      let (stub, seq, cache1) := toWithForm cache near
+      -- fix N28: the cache is consulted BEFORE the sub-query is converted (a hit visits nothing below the node, so no
+      -- key of a discarded step can stay behind in the cache)
       let k := cacheKey near cols
-      match cache1.bind (fun c => lookupLast c k) with
-      | some cteName => (.cte cteName, [], cache1)        -- the steps computed above are discarded on a hit
+      match cache.bind (fun c => lookupLast c k) with
+      | some cteName => (.cte cteName, [], cache)
       | none =>
+        let (stub, seq, cache1) := toWithForm cache near
         let seq' := if seq.any (fun st => st.name == stub.name) then seq else seq ++ [⟨stub.name, stub, cols, force⟩]
         (.cte stub.name, seq', cache1.map (fun c => c ++ [(k, stub.name)]))
 end
